@@ -242,6 +242,8 @@ class C13(Property):
         pm = cm.parent_map(case["tree"])
         if any(pm[n["id"]] is not None and pm[n["id"]]["k"] == "l" and n["k"] == "l" for n in nodes):
             t.append("list-in-list")
+        if any("sparse" in n for n in nodes):
+            t.append("has-sparse-dict")
         return t
 
     def shrink_candidates(self, case):
